@@ -116,6 +116,16 @@ func (c *Ctx) successFacts(call *ssa.Call) {
 			if n := extract(0); n != nil {
 				nf := c.Lin(n)
 				c.add(lin.GE0(nf), lin.LE(nf, c.LenOf(args[dp])))
+				// progress: does every success return of every callee consume at least one byte?
+				pos := inModule
+				for _, f := range c.FI.W.CalleesOf(call) {
+					if !c.FI.W.P.InModule(f) || !c.FI.W.positiveOnSuccess(f) {
+						pos = false
+					}
+				}
+				if pos {
+					c.add(lin.GE(nf, lin.K(1)))
+				}
 			}
 		}
 	}
@@ -233,6 +243,10 @@ func (c *Ctx) callLenFacts(call *ssa.Call, f lin.Form) {
 		}
 	case "encoding/hex.EncodeToString":
 		c.add(lin.EQ(f, c.LenOf(a[0]).ScaleI(2))...)
+	case "unicode/utf16.Encode":
+		c.add(lin.LE(f, c.LenOf(a[0]).ScaleI(2)))
+	case "unicode/utf16.Decode":
+		c.add(lin.LE(f, c.LenOf(a[0])))
 	case "bytes.TrimRight", "bytes.TrimLeft", "bytes.Trim", "bytes.TrimSpace":
 		c.add(lin.LE(f, c.LenOf(a[0])))
 	}
@@ -398,4 +412,40 @@ func o2t(call *ssa.Call, i int) types.Type {
 		return res.At(i).Type()
 	}
 	return types.Typ[types.Invalid]
+}
+
+// positiveOnSuccess: fn has the consumed-count shape and returns n >= 1 at
+// every return that may carry a nil error.
+func (w *World) positiveOnSuccess(fn *ssa.Function) bool {
+	if w.nonNeg == nil {
+		w.nonNeg = map[string]int{}
+	}
+	key := fn.String() + "#pos"
+	switch w.nonNeg[key] {
+	case 1:
+		return true
+	case 2:
+		return false
+	}
+	if fn.Blocks == nil {
+		w.nonNeg[key] = 2
+		return false
+	}
+	w.nonNeg[key] = 1
+	fi := w.Info(fn)
+	for _, b := range fn.Blocks {
+		ret, ok := b.Instrs[len(b.Instrs)-1].(*ssa.Return)
+		if !ok || len(ret.Results) != 2 {
+			continue
+		}
+		c := fi.ctxBefore(ret)
+		if errDefinitelyNonNil(c, ret.Results[1]) {
+			continue
+		}
+		if !c.Prove(lin.GE(c.Lin(ret.Results[0]), lin.K(1))) {
+			w.nonNeg[key] = 2
+			return false
+		}
+	}
+	return true
 }
